@@ -77,6 +77,7 @@ def stepOf (j : Json) : Option Step :=
   | some "count" => (str? (getD j "name")).map Step.count
   | some "upd" => do some (.upd (← str? (getD j "key")) (← int? (getD j "v")))
   | some "app" => (int? (getD j "v")).map Step.app
+  | some "setd" => do some (.setd (← str? (getD j "key")) (← int? (getD j "v")))
   | some "stop" => (nat? (getD j "n")).map Step.stop
   | _ => none
 
@@ -89,6 +90,10 @@ def accOf (j : Json) : Option AccKind :=
   | some "keeplast" => some .keepLast
   | some "reqsum" => some .reqSum
   | some "reqstore" => some .reqStore
+  | some "vec_list" => some .vecList
+  | some "graph" => some .graph
+  | some "store_group" => some .storeGroup
+  | some "groupby" => (str? (getD j "key")).map AccKind.groupBy
   | some "count" => (str? (getD j "name")).map AccKind.count
   | some "mean" => do
     let sq := getD j "seq"
@@ -96,6 +101,7 @@ def accOf (j : Json) : Option AccKind :=
     if sq.isNull then some (.mean none poe)
     else match str? sq with
       | some "sum" => some (.mean (some .sum) poe)
+      | some "dsum" => some (.mean (some .dsum) poe)
       | _ => do some (.mean (some (.sumCount (← str? (getD sq "count")))) poe)
   | some "vmc" => do some (.vmc (← bool? (getD j "corrected")) (← bool? (getD j "poe")))
   | some "vectorize" => (nat? (getD j "dim")).map AccKind.vectorize
@@ -124,7 +130,7 @@ def numOf (seen : List Tok) (t : Tok) : List Tok × Nat :=
   | some i => (seen, i)
   | none => (seen ++ [t], seen.length)
 
-def renderItem (st : Store Value) (seen : List Tok) (x : HItem) : List Tok × Json :=
+def renderPlain (st : Store Value) (seen : List Tok) (x : HItem) : List Tok × Json :=
   let (seen1, dj) : List Tok × Json :=
     match x.skel.data, x.dataTok with
     | some v, _ => (seen, valueJson v)
@@ -137,6 +143,31 @@ def renderItem (st : Store Value) (seen : List Tok) (x : HItem) : List Tok × Js
   | some c =>
     let r := numOf seen1 c
     (r.1, Json.mkObj [("d", dj), ("c", Json.mkObj [("t", ofNat r.2), ("v", valueJson (st c))])])
+
+/-- the members of a group, from the skeleton parts and the cells that follow the list object -/
+def groupMembers : List (Option Value × Bool) → List Tok → List HItem
+  | [], _ => []
+  | (d, c) :: rest, cells =>
+    let n := (if d.isNone then 1 else 0) + (if c then 1 else 0)
+    { skel := { data := d, hasCtx := c }, cells := cells.take n } :: groupMembers rest (cells.drop n)
+
+def isGroup (x : HItem) : Bool :=
+  match x.skel.data with
+  | some (.str "<group>") => true
+  | _ => false
+
+def renderItem (st : Store Value) (seen : List Tok) (x : HItem) : List Tok × Json :=
+  if isGroup x then
+    match x.cells with
+    | [] => (seen, Json.null)
+    | l :: rest =>
+      let r := numOf seen l
+      let ms := groupMembers x.skel.parts rest
+      let q := ms.foldl (fun (acc : List Tok × List Json) m =>
+        let rr := renderPlain st acc.1 m
+        (rr.1, acc.2 ++ [rr.2])) (r.1, [])
+      (q.1, Json.mkObj [("group", ofNat r.2), ("items", Json.arr q.2.toArray)])
+  else renderPlain st seen x
 
 def renderItems (st : Store Value) : List Tok → List HItem → List Tok × List Json
   | seen, [] => (seen, [])
@@ -155,8 +186,8 @@ def handleSplit (j : Json) : Json :=
     let res : List HItem × Store Value × Bool :=
       match mode with
       | "run" =>
-        let r := Split.runTrace { branches := brs, bufsize := bufsize, copyBuf := copyBuf } st0 flow
-        (outputs r.1, r.2, false)
+        let r := Split.run { branches := brs, bufsize := bufsize, copyBuf := copyBuf } st0 flow
+        (r.1, r.2, false)
       | "fill" =>
         let f := fillFlow (splitFill copyBuf) { st := st0, cc := 0 } brs flow
         let allFr := specs.all (fun s => s.kind == .fillRequest)
@@ -172,17 +203,17 @@ def handleSplit (j : Json) : Json :=
     Json.mkObj [("flow", Json.arr rf.2.toArray), ("outs", Json.arr ro.2.toArray), ("stopped", Json.bool res.2.2)]
   | _, _, _, _, _ => err "bad split args"
 
-structure HistSt where
+structure HistSt (σ : Type) where
   st : Store Value
-  s : HSt := {}
+  s : σ
   filled : List HItem := []
   outs : List HItem := []
   evs : List Json := []
 
 def setKey (key : String) (v : Value) : Value := .dict (dictSet (ctxOf v) key (.int 1))
 
-def histStep (ops : Ops HSt Skel Value) (h : HistSt) (j : Json) : Option HistSt :=
-  let doReq (h : HistSt) (r : Req Skel) : HistSt :=
+def histStep {σ : Type} (ops : Ops σ Skel Value) (reset : σ → σ) (h : HistSt σ) (j : Json) : Option (HistSt σ) :=
+  let doReq (h : HistSt σ) (r : Req Skel) : HistSt σ :=
     let a := ops.act h.st h.s r
     { h with st := a.1, s := a.2.1, outs := h.outs ++ a.2.2.outs,
              evs := h.evs ++ [Json.mkObj [("n", ofNat a.2.2.outs.length), ("err", ofOpt Json.str a.2.2.err)]] }
@@ -192,6 +223,7 @@ def histStep (ops : Ops HSt Skel Value) (h : HistSt) (j : Json) : Option HistSt 
     some { h with st := a.1, s := a.2.1, filled := h.filled ++ [x] }
   else if !(getD j "c").isNull then some (doReq h .compute)
   else if !(getD j "r").isNull then some (doReq h .request)
+  else if !(getD j "reset").isNull then some { h with s := reset h.s }
   else if !(getD j "my").isNull then do
     let k ← nat? (getD j "my")
     let key ← str? (getD j "key")
@@ -213,16 +245,35 @@ def histStep (ops : Ops HSt Skel Value) (h : HistSt) (j : Json) : Option HistSt 
     | none => some h
   else none
 
+def runHistory {σ : Type} (ops : Ops σ Skel Value) (reset : σ → σ) (s0 : σ) (st0 : Store Value) (hist : Array Json) : Json :=
+  match hist.toList.foldlM (histStep ops reset) { st := st0, s := s0 } with
+  | none => err "bad history"
+  | some h =>
+    let rf := renderItems h.st [] h.filled
+    let ro := renderItems h.st rf.1 h.outs
+    Json.mkObj [("filled", Json.arr rf.2.toArray), ("outs", Json.arr ro.2.toArray), ("evs", Json.arr h.evs.toArray)]
+
 def handleAcc (j : Json) : Json :=
-  match accOf (getD j "acc"), heapOf (getD j "heap"), arr? (getD j "hist") with
-  | some k, some st0, some hist =>
-    match hist.toList.foldlM (histStep (accOps (ownNs 0) k)) { st := st0 } with
-    | none => err "bad history"
-    | some h =>
-      let rf := renderItems h.st [] h.filled
-      let ro := renderItems h.st rf.1 h.outs
-      Json.mkObj [("filled", Json.arr rf.2.toArray), ("outs", Json.arr ro.2.toArray), ("evs", Json.arr h.evs.toArray)]
-  | _, _, _ => err "bad acc args"
+  match heapOf (getD j "heap"), arr? (getD j "hist") with
+  | some st0, some hist =>
+    let a := getD j "acc"
+    match str? (getD a "a") with
+    | some "zip" =>
+      -- Zip([acc, …]) as one accumulator
+      match (arr? (getD a "subs")).bind (fun s => s.toList.mapM accOf) with
+      | some ks => runHistory (zipOps ks) (fun z => z) (zipInit ks) st0 hist
+      | none => err "bad zip"
+    | some "fcseq" =>
+      -- FillComputeSeq(*steps, acc) as one accumulator
+      match (arr? (getD a "steps")).bind (fun s => s.toList.mapM stepOf), accOf (getD a "term") with
+      | some steps, some k =>
+        runHistory (hOps (ownNs 0) { kind := .fillCompute, steps := steps, term := k, srcN := 0 }) (fun s => s) {} st0 hist
+      | _, _ => err "bad fcseq"
+    | _ =>
+      match accOf a with
+      | some k => runHistory (accOps (ownNs 0) k) (fun s => { s with acc := accReset s.acc }) {} st0 hist
+      | none => err "bad acc"
+  | _, _ => err "bad acc args"
 
 def handle (j : Json) : Json :=
   match str? (getD j "op") with
